@@ -463,6 +463,16 @@ func wrCheck(c *core.Ctx, cases []wrCase) []core.Outcome {
 				for off < len(a) && off < len(b) && a[off] == b[off] {
 					off++
 				}
+				if off == 1 {
+					// the operand of the leading Lazybranch is the position of Stop: it differs whenever the sizes
+					// differ; classify by the first difference inside the root's fragment when there is one
+					for k := 2; k < len(a) && k < len(b); k++ {
+						if a[k] != b[k] {
+							off = k
+							break
+						}
+					}
+				}
 				key = fmt.Sprintf("Wr:%s:%s", name, locate(p, off, name == "quick"))
 				bad(key, fmt.Sprintf("the %s of the model and of syntax.Write differ first at code offset %d", name, off), items[k], p.parts[k])
 			} else {
